@@ -254,6 +254,18 @@ def check_other_arithmetic(ctx: Ctx):
     prog = ctx.prog
     n_sites = 0
     covered = {prog.func(q).qual for q in COVERED}
+    # helpers the covered functions call are inlined by the pointwise runs (R09.1 / R09.2), so
+    # their arithmetic is analysed there
+    work = [prog.func(q) for q in COVERED]
+    for _ in range(3):
+        nxt = []
+        for g in work:
+            for c in prog.calls_in(g):
+                for h in prog.resolve_call(g, c):
+                    if isinstance(h, Func) and h.qual not in covered:
+                        covered.add(h.qual)
+                        nxt.append(h)
+        work = nxt
     for f in prog.package_functions():
         if f.qual in covered or f.module.rel.startswith("metrics") or f.module.rel.startswith("panoptica_statistics"):
             continue
